@@ -85,6 +85,51 @@ type TermCtx struct {
 	strOrd  []string
 	sorts   map[string]bool // extra uninterpreted sorts
 	sortOrd []string
+	// semantic hints for simplification: ids of integer terms known to be < alloc0 (roots of objects that existed
+	// at entry) and ids of allocation-counter constants (all >= alloc0)
+	oldRoot   map[int]bool
+	allocBase map[int]bool
+	// rootTag: what kind of object an integer root term identifies (pointer target of some type, or the backing
+	// array of a slice with some element type); incompat decides whether two tags can denote the same object
+	allocLB  map[int]*Term // alloc constant -> a term it is >= to (previous counter value)
+	rootTag  map[int]interface{}
+	incompat func(a, b interface{}) bool
+}
+
+// lowerBoundOver: is t >= base + k derivable from the recorded counter chain? returns (true, k).
+func (c *TermCtx) lowerBoundOver(t, base *Term) (bool, *big.Int) {
+	k := new(big.Int)
+	for i := 0; i < 1000; i++ {
+		bt, kt := splitOffset(t)
+		if bt == nil {
+			return false, nil
+		}
+		k.Add(k, kt)
+		if bt == base {
+			return true, k
+		}
+		lb, ok := c.allocLB[bt.id]
+		if !ok {
+			return false, nil
+		}
+		t = lb
+	}
+	return false, nil
+}
+
+// freshVsOld: is one side alloc-counter + k (k >= 0) and the other the root of an object that existed at entry?
+func (c *TermCtx) freshVsOld(a, b *Term) bool {
+	if c.oldRoot == nil {
+		return false
+	}
+	chk := func(x, y *Term) bool {
+		if !c.oldRoot[y.id] {
+			return false
+		}
+		bx, kx := splitOffset(x)
+		return bx != nil && c.allocBase[bx.id] && kx.Sign() >= 0
+	}
+	return chk(a, b) || chk(b, a)
 }
 
 type FuncDecl struct {
@@ -462,6 +507,16 @@ func (c *TermCtx) Eq(a, b *Term) *Term {
 		if ba == bb && ba != nil {
 			return c.Bool(ka.Cmp(kb) == 0)
 		}
+		if c.freshVsOld(a, b) {
+			return c.False()
+		}
+		if c.rootTag != nil && c.incompat != nil {
+			if ta, ok := c.rootTag[a.id]; ok {
+				if tb, ok := c.rootTag[b.id]; ok && c.incompat(ta, tb) {
+					return c.False()
+				}
+			}
+		}
 	}
 	if a.Op == "strlit" && b.Op == "strlit" {
 		return c.Bool(a.Name == b.Name)
@@ -612,6 +667,36 @@ func (c *TermCtx) cmp(op string, a, b *Term) *Term {
 				return c.Bool(r < 0)
 			}
 			return c.Bool(r <= 0)
+		}
+		if c.allocLB != nil {
+			// both sides alloc-based: compare through the chain of lower bounds  b >= ... >= base_a + k
+			ba, ka := splitOffset(a)
+			if ba != nil && c.allocBase[ba.id] {
+				lbBase, lbK := c.lowerBoundOver(b, ba)
+				if lbBase {
+					// b >= ba + lbK ; a = ba + ka
+					r := ka.Cmp(lbK)
+					if op == "<" && r < 0 {
+						return c.True()
+					}
+					if op == "<=" && r <= 0 {
+						return c.True()
+					}
+				}
+			}
+		}
+		if c.oldRoot != nil {
+			// old root < alloc-counter + k
+			if c.oldRoot[a.id] {
+				if bx, kx := splitOffset(b); bx != nil && c.allocBase[bx.id] && kx.Sign() >= 0 {
+					return c.True()
+				}
+			}
+			if c.oldRoot[b.id] {
+				if bx, kx := splitOffset(a); bx != nil && c.allocBase[bx.id] && kx.Sign() >= 0 {
+					return c.False()
+				}
+			}
 		}
 	}
 	return c.mk(op, "", SBool, a, b)
